@@ -89,7 +89,7 @@ structure Assignment where
   deriving Repr, DecidableEq
 
 inductive BindErr where
-  | tooManyPositional | multipleValues | unexpectedKeyword | missingRequired
+  | tooManyPositional | multipleValues | unexpectedKeyword | missingRequired | posOnlyAsKeyword
   deriving Repr, DecidableEq
 
 /-- Exception classes that cross the protocol. Every binding error of the language is a
@@ -151,6 +151,39 @@ def pyBind (s : Sig) (c : Call) : Except BindErr Assignment :=
   match nameArgs s c with
   | .error e => .error e
   | .ok n => complete s n
+
+/-! ### SPEC with positional-only parameters (`def f(a, b, /, c)`): the first `npo` positional
+parameters cannot be named by a keyword; such a keyword goes to `**kwargs` if declared, else the
+call is refused. -/
+
+def kwAble (npo : Nat) (s : Sig) : List Name := s.posNames.drop npo ++ s.kwNames
+
+def bindKwPO (npo : Nat) (s : Sig) (all : KW) : KW → Named → Except BindErr Named
+  | [], n => .ok n
+  | (k, v) :: r, n =>
+    if (kwAble npo s).contains k then
+      if khas n.named k then .error .multipleValues
+      else bindKwPO npo s all r { n with named := n.named ++ [(k, v)] }
+    else if s.varkw.isSome then
+      if khas n.extra k then .error .multipleValues
+      else bindKwPO npo s all r { n with extra := n.extra ++ [(k, v)] }
+    else if all.any (fun p => (s.posNames.take npo).contains p.1) then .error .posOnlyAsKeyword
+    else .error .unexpectedKeyword
+
+def nameArgsPO (npo : Nat) (s : Sig) (c : Call) : Except BindErr Named :=
+  match bindKwPO npo s c.kwargs c.kwargs ⟨s.posNames.zip c.args, c.args.drop s.pos.length, []⟩ with
+  | .error e => .error e
+  | .ok n => if !n.va.isEmpty && s.varargs.isNone then .error .tooManyPositional else .ok n
+
+def pyBindPO (npo : Nat) (s : Sig) (c : Call) : Except BindErr Assignment :=
+  match nameArgsPO npo s c with
+  | .error e => .error e
+  | .ok n => complete s n
+
+def pyCallPO (npo : Nat) (s : Sig) (c : Call) : Except PyErr Assignment :=
+  match pyBindPO npo s c with
+  | .error e => .error e.toPy
+  | .ok a => .ok a
 
 /-- Outcome as seen through the protocol / by the property: assignment or exception class. -/
 def pyCall (s : Sig) (c : Call) : Except PyErr Assignment :=
@@ -365,15 +398,17 @@ def objectInit (s : Sig) (c : Call) : Except PyErr SymObject :=
       else if fields.any (fun p => s.varargs == some p.1) then .error .typeError
       else .ok ⟨s, fields, va⟩
 
-/-- class_wrapper.py:191-205 `_call_init`: the call made to the user's `__init__`. -/
+/-- Parameters with their value in `fields`, else their default (the `_sym_attributes` dict has
+the defaults filled in by `Schema.apply`). -/
+def withDefaults (fields : KW) (ps : List Param) : KW :=
+  ps.filterMap fun p => ((kget fields p.name).orElse fun _ => p.dflt).map fun v => (p.name, v)
+
+/-- class_wrapper.py `_call_init` (with fixes/C18-F61.patch: the positional parameters are always
+passed by position): the call made to the user's `__init__`. -/
 def callInitCall (o : SymObject) : Call :=
   let s := o.sig
-  let withDefaults (ps : List Param) : KW :=
-    ps.filterMap fun p => ((kget o.fields p.name).orElse fun _ => p.dflt).map fun v => (p.name, v)
-  let extras := o.fields.filter fun p => !(s.names.contains p.1)
-  match s.varargs with
-  | some _ => ⟨(withDefaults s.pos).map (·.2) ++ o.va.getD [], withDefaults s.kwonly ++ extras⟩
-  | none => ⟨[], withDefaults s.pos ++ withDefaults s.kwonly ++ extras⟩
+  ⟨(withDefaults o.fields s.pos).map (·.2) ++ o.va.getD [],
+   withDefaults o.fields s.kwonly ++ o.fields.filter fun p => !(s.names.contains p.1)⟩
 
 /-- `Cls(*args, **kwargs)` for `Cls = pg.symbolize(UserClass)`: what the user's `__init__` sees. -/
 def classInit (s : Sig) (c : Call) : Except PyErr Assignment :=
@@ -410,6 +445,26 @@ def reportArgs (s : Sig) (fields : KW) (va : Option (List V)) : List (Name × Re
 
 def symInitArgs (F : Functor) : List (Name × Reported) := reportArgs F.sig F.bound F.va
 
+/-! ### Clone and JSON round trip of a functor -/
+
+/-- `Functor._sym_clone` (functor.py:249-259): the symbolic attributes are copied and the bound-arg
+sets and flags are carried over — the identity on the modelled state. -/
+def Functor.clone (F : Functor) : Functor := F
+
+/-- `pg.from_json(F.to_json())`: `to_json` emits every symbolic attribute that is not MISSING
+(defaults included, the `*args` list under its name, extras last); `from_json` calls
+`cls(**those)` (object.py:595), i.e. `Functor.__init__` with keywords only and default flags. -/
+def Functor.jsonRoundTrip (F : Functor) : Functor :=
+  let s := F.sig
+  let bound' := withDefaults F.bound s.pos ++ withDefaults F.bound s.kwonly
+                ++ F.bound.filter (fun p => !(s.names.contains p.1))
+  let va' : Option (List V) := s.varargs.map (fun _ => F.va.getD [])
+  { sig := s, bound := bound', va := va',
+    -- functor.py:223: `varargs` (the positional surplus) is None for a keyword-only construction
+    defaultArgs := defaultArgsOf s bound' none,
+    nonDefaultArgs := nonDefaultArgsOf s bound' va',
+    overrideArgs := false, ignoreExtraArgs := false }
+
 /-! ### Effective arguments of a two-stage call -/
 
 /-- Naming of the call-time arguments: like `nameArgs`, except that with `ignore_extra_args`
@@ -433,6 +488,14 @@ def toCall (s : Sig) (n : Named) : Call :=
   else ⟨(s.pos.filterMap fun p => kget n.named p.name) ++ n.va,
         n.named.filter (fun p => !(s.posNames.contains p.1)) ++ n.extra⟩
 
+/-- `toCall` for a signature whose first `npo` positional parameters are positional-only: those
+are passed by position also when there are no surplus positionals. -/
+def toCallPO (npo : Nat) (s : Sig) (n : Named) : Call :=
+  if n.va.isEmpty then
+    ⟨(s.pos.take npo).filterMap (fun p => kget n.named p.name),
+     n.named.filter (fun p => !((s.posNames.take npo).contains p.1)) ++ n.extra⟩
+  else toCall s n
+
 /-- Do the two argument sets overlap? (Then the functor demands `override_args`.) -/
 def conflicts (n1 n2 : Named) : Bool :=
   n2.named.any (fun p => khas n1.named p.1) || n2.extra.any (fun p => khas n1.extra p.1)
@@ -448,4 +511,14 @@ def effective (s : Sig) (c1 c2 : Call) (ignore : Bool) : Except BindErr Call :=
     | .error e => .error e
     | .ok n2 => .ok (toCall s (mergeNamed n1 n2))
 
+end Pg.C18
+
+namespace Pg.C18
+def effectivePO (npo : Nat) (s : Sig) (c1 c2 : Call) (ignore : Bool) : Except BindErr Call :=
+  match nameArgs s c1 with
+  | .error e => .error e
+  | .ok n1 =>
+    match nameArgs s (if ignore then dropExtras s c2 else c2) with
+    | .error e => .error e
+    | .ok n2 => .ok (toCallPO npo s (mergeNamed n1 n2))
 end Pg.C18
